@@ -337,18 +337,19 @@ def mkh(kind):
     # O7: recycled attribute patterns that do not divide the page shape do not crash the per-page border pass
     for top in (False, True):
         obs.append(Ob(
-            oid="O7.pattern_shapes." + ("top" if top else "bottom"), sig="vr: int, vc: int, h: int, w: int",
-            pre=["1 <= vr <= 3 and 1 <= vc <= 3", "1 <= h <= 4 and 1 <= w <= 3"], timeout=T,
+            oid="O7.pattern_shapes." + ("top" if top else "bottom"), sig="vr: int, vc: int, h: int, w: int, rs: int, last: bool",
+            pre=["1 <= vr <= 3 and 1 <= vc <= 2", "1 <= h <= 3 and 1 <= w <= 2", "0 <= rs <= 3"], timeout=T,
             header=HDR1 + "from rtflite.pagination.processor import PageFeatureProcessor\nfrom rtflite.attributes import BroadcastValue\n"
                           "BODIES = {}\nfor _r in (1, 2, 3):\n    for _c in (1, 2, 3):\n        _p = [['single' if (i + j) %% 2 == 0 else '' for j in range(_c)] for i in range(_r)]\n"
                           "        BODIES[(_r, _c)] = rtf.RTFBody(**{%r: _p})\n" % ("border_top" if top else "border_bottom"),
             body=r'''
-    VR, VC, H, W = concrete_int(vr, 1, 3), concrete_int(vc, 1, 3), concrete_int(h, 1, 4), concrete_int(w, 1, 3)
+    VR, VC, H, W = concrete_int(vr, 1, 3), concrete_int(vc, 1, 2), concrete_int(h, 1, 3), concrete_int(w, 1, 2)
+    RS = concrete_int(rs, 0, 3)
     body = BODIES[(VR, VC)]
     doc = NS(rtf_body=body, rtf_page=NS(border_first="double", border_last="double", page_footnote="last", page_source="last"),
              rtf_column_header=[], rtf_footnote=None, rtf_source=None)
-    page = NS(table_attrs=body, data=FakeFrame({"c%d" % j: ["x"] * H for j in range(W)}), is_first_page=True, is_last_page=True,
-              component_borders={}, row_start=0)
+    page = NS(table_attrs=body, data=FakeFrame({"c%d" % j: ["x"] * H for j in range(W)}), is_first_page=(RS == 0), is_last_page=last,
+              component_borders={}, row_start=RS, needs_header=True)
     attrs = PageFeatureProcessor()._apply_pagination_borders(doc, page)
     for name in ("border_top", "border_bottom"):
         g = BroadcastValue(value=getattr(attrs, name), dimension=(H, W)).to_list()
@@ -359,8 +360,8 @@ def mkh(kind):
             funcs=["rtflite.pagination.processor:PageFeatureProcessor._apply_pagination_borders", "rtflite.attributes:BroadcastValue.to_list",
                    "rtflite.attributes:BroadcastValue.update_cell"],
             stubs=["page frame -> FakeFrame", "document/page -> namespaces around a REAL RTFBody"],
-            bounds="a %s pattern of shape 1..3 x 1..3 recycled over a one-page table of 1..4 rows x 1..3 columns (dividing or not; "
-                   "solver-enumerated shapes)" % ("border_top" if top else "border_bottom"),
+            bounds="a %s pattern of shape 1..3 x 1..2 recycled over a page of 1..3 rows x 1..2 columns that starts at table row 0..3 (first or later page, "
+                   "last or not; dividing or not; solver-enumerated shapes)" % ("border_top" if top else "border_bottom"),
             what="every accepted attribute shape - including recycled patterns that do not divide the table - goes through the per-page "
                  "border pass without an exception and yields a full border grid"))
     meta = {
